@@ -43,7 +43,7 @@ THEOREMS = [
     "callId_key_roundtrip_computed", "taskId_dotted_func_refutation", "taskSep_matches", "spellings_same_arguments",
     "spellings_same_identity", "batch_is_spelling", "batch_same_identity", "batch_override_fixed",
     "batch_identity_refutation_old", "batch_override_refutation_old", "external_iff",
-    "serialize_routing", "store_invariant", "cds_roundtrip", "cds_roundtrip_history", "reference_content_addressed",
+    "serialize_routing", "store_invariant", "cds_roundtrip", "cds_roundtrip_history", "reference_content_addressed", "fresh_process_resolves", "fresh_process_resolves_after_foreign_purge",
     "reserved_prefix_refutation", "lru_alias_refutation", "reference_stable_refutation", "reference_stable_partial", "cache_size_zero_refutation", "json_roundtrip",
     "reserved_keys_distinct", "json_tuple_refutation", "json_reserved_key_refutation",
     "json_nested_special_refutation",
@@ -456,6 +456,16 @@ def cds_confs(ctx: Ctx, rng, lengths: list[int]) -> list[dict]:
     return confs
 
 
+def other_process(app):  # type: ignore[no-untyped-def]
+    """a fresh app object with the configuration of `app` (same SQLite file, same app id): what another process sees"""
+    from pynenc.app import Pynenc
+
+    Pynenc._clear_instances()
+    app2 = Pynenc(config_values=copy.deepcopy(app.config_values))
+    Pynenc._clear_instances()
+    return app2
+
+
 def corr_cds(ctx: Ctx, drv: LeanDriver) -> None:
     rng = ctx.rng
     total_nd = 0
@@ -488,17 +498,27 @@ def corr_cds(ctx: Ctx, drv: LeanDriver) -> None:
                     announce(a)
                 datas: list[str] = [G.PREFIX + ":" + "0" * 64]
                 nops = 120 if ctx.quick else 700
+                forced: list[tuple[str, int]] = []  # directed continuation after a foreign purge
+                last_ref: int | None = None
                 for _ in range(nops):
                     r = rng.random()
+                    directed = forced.pop(0) if forced else None
+                    if directed:
+                        r = 0.0 if directed[0] == "ser" else 0.99
                     if r < 0.45:
                         a = rng.randrange(len(objs))
                         dis = rng.random() < 0.2
+                        if directed:
+                            # re-serialise, unchanged, the value whose key this process still holds in its LRU
+                            a, dis = directed[1], False
                         lines.append(f"cds.ser {a} {1 if dis else 0}")
                         try:
                             d = cds.serialize(objs[a], disable_cache=dis)
                             impl.append("ok " + tok(d))
                             datas.append(d)
                             op = "ser-ref" if d.startswith(G.PREFIX) else "ser-inline"
+                            if op == "ser-ref":
+                                last_ref = a
                         except KeyError:
                             impl.append("err keyerror")
                             op = "ser-keyerror"
@@ -524,11 +544,33 @@ def corr_cds(ctx: Ctx, drv: LeanDriver) -> None:
                             objs[a]["m%d" % rng.randint(0, 3)] = rng.randint(0, 9)
                         announce(a)
                         op = "mutate"
-                    else:
+                    elif r < 0.975 or kind != "sqlite":
                         lines.append("cds.purge")
                         cds.purge()
                         impl.append("ok")
                         op = "purge"
+                    elif r < 0.985:
+                        # another process (a second app object on the same database, its own empty LRU) purges the store
+                        lines.append("cds.fpurge")
+                        other_process(app).client_data_store.purge()
+                        impl.append("ok")
+                        op = "foreign-purge"
+                        if last_ref is not None:
+                            forced = [("ser", last_ref), ("fres", last_ref)]
+                    else:
+                        # a process that never saw the key resolves it from the shared backend
+                        d = datas[-1] if directed or rng.random() < 0.7 else rng.choice(datas)
+                        lines.append(f"cds.fres {tok(d)}")
+                        try:
+                            o = other_process(app).client_data_store.resolve(d)
+                            impl.append("ok " + tok(ser.serialize(o)))
+                            op = "fresh-res-ok"
+                        except KeyError:
+                            impl.append("err keyerror")
+                            op = "fresh-res-keyerror"
+                        except Exception as e:  # noqa: BLE001
+                            impl.append(f"err {type(e).__name__}")
+                            op = "fresh-res-other"
                     hist[op] = hist.get(op, 0) + 1
                     ctx.distinct(("cds", ser_name, kind, json.dumps(conf, sort_keys=True), lines[-1]))
                 outs = drv.ask_many(lines)
@@ -739,7 +781,7 @@ def oracle_trip(ctx: Ctx) -> None:
         values = [gen(rng, 3) for _ in range(nvals)]
         probe = mk(ctx, "mem", ser_name)
         values += [G.sized_value(rng, probe.serializer.serialize, n) for n in (30, 31, 32, 200, 1023, 1024, 1025, 3000)]
-        values += ["", "x" * 2000, [], {}, 0, None, "café \U0001f600", [CT.Color.RED, CT.Level.HIGH, CT.Tag.A], ValueError("boom", 1),
+        values += ["", "x" * 2000, [], {}, 0, None, "café \U0001f600", [CT.Color.RED, CT.Level.HIGH, CT.Tag.A], CT.Sev.ERROR, {"k": [CT.Slot.TWO, CT.Weight.HEAVY]}, CT.Perm.R, [CT.Perm.R | CT.Perm.W], ValueError("boom", 1),
                    CT.AppError("a"), CT.Money({"amount": 1.5}), G.PREFIX[:-1], "_" + G.PREFIX]
         lengths = []
         for v in values:
@@ -927,6 +969,37 @@ def oracle_known_classes(ctx: Ctx) -> None:
 
 # ================================================================================================
 
+def oracle_foreign_purge(ctx: Ctx) -> None:
+    """"a reference always resolves to the content it was created from", also when the process that creates it has seen
+    the content before and the shared backend was emptied in between by another process (`app.purge()` elsewhere):
+    serialize, other process purges, serialize again -> a third process (empty cache) resolves the new reference."""
+    rng = ctx.rng
+    n = 0
+    for ser_name in SERIALIZERS:
+        for local in (1, 3, 1024):
+            app = mk(ctx, "sqlite", ser_name, min_size_to_cache=16, local_cache_size=local)
+            cds = app.client_data_store
+            vals = [G.sized_value(rng, app.serializer.serialize, k) for k in (40, 90, 300)] + ["y" * 64, list(range(30))]
+            for v in vals:
+                snap = G.canon(v)
+                rep = {"kind": "foreign-purge", "serializer": ser_name, "local_cache_size": local, "value": pkl(v)}
+                r1 = cds.serialize(copy.deepcopy(v))
+                other_process(app).client_data_store.purge()
+                r2 = cds.serialize(copy.deepcopy(v))
+                ctx.count()
+                ctx.distinct(("fpurge", ser_name, local, repr(snap)))
+                n += 1
+                if r1 != r2:
+                    ctx.report(f"foreign-purge:reference-changed:{ser_name}", f"[sqlite/{ser_name}] equal content gives {r1[:60]} then {r2[:60]}", rep)
+                try:
+                    got = other_process(app).client_data_store.resolve(r2)
+                    if G.canon(got) != snap:
+                        ctx.report(f"foreign-purge:wrong-content:{ser_name}", f"[sqlite/{ser_name}/cache {local}] the reference created after another process purged the store resolves to {got!r:.100}", rep)
+                except KeyError as e:
+                    ctx.report(f"foreign-purge:dangling-reference:{ser_name}", f"[sqlite/{ser_name}/cache {local}] serialize() handed out {r2[:50]}… after another process purged the store, and no other process can resolve it: KeyError {e}", rep)
+    ctx.notes["foreign_purge_cases"] = n
+
+
 def run(ctx: Ctx) -> None:
     lean_stage(ctx, tr.gen, THEOREMS)
     ctx.cov["rule"] = (
@@ -954,6 +1027,7 @@ def run(ctx: Ctx) -> None:
         drv.close()
     phase("trip oracle", oracle_trip)
     phase("known classes oracle", oracle_known_classes)
+    phase("foreign purge oracle", oracle_foreign_purge)
     ctx.assumptions += [
         "SHA-256 is a parameter of the model: callId_eq_iff (⇒) assumes no collision on the two pre-hash byte strings, the store theorems no collision on the texts that occur; digests are 64 hex characters",
         "pickle and jsonpickle are black boxes: deser(ser v) = v is a hypothesis of cds_roundtrip, sampled by the trip oracle on generated values of a conservative domain",
@@ -1000,6 +1074,19 @@ def replay(data: dict) -> int:
             got = cds.resolve(ref)
             print("reference", ref[:48], "resolves to", len(got), "elements; created from", len(before[1]))
         return 0 if G.canon(got) == before else 1
+    if kind == "foreign-purge":
+        app = make_app("sqlite", tmp, app_id="c15replay", serializer_cls=r["serializer"], min_size_to_cache=16, local_cache_size=r["local_cache_size"])
+        v = unpkl(r["value"])
+        app.client_data_store.serialize(copy.deepcopy(v))
+        other_process(app).client_data_store.purge()
+        ref = app.client_data_store.serialize(copy.deepcopy(v))
+        try:
+            got = other_process(app).client_data_store.resolve(ref)
+        except KeyError as e:
+            print(f"reproduced: {ref[:50]}… does not resolve in another process: KeyError {e}")
+            return 1
+        print("resolved to", repr(got)[:100])
+        return 0 if G.canon(got) == G.canon(v) else 1
     if kind == "batch":
         app = make_app(r["backend"], tmp, app_id="c15replay", serializer_cls="JsonSerializer")
         task = app.task(T.c15_sig3)
